@@ -139,8 +139,13 @@ def _entries():
 def invalid_types(pdict):
     """Type strings in a definition that the scalar codec does not know (e.g. the FOO-BAR fixture)."""
     bad = []
+    if not isinstance(pdict, dict):
+        return [repr(pdict)[:40]]
     for v in pdict.values():
         if isinstance(v, tuple):
+            if len(v) != 2 or not isinstance(v[1], dict):  # not a group / bitfield the grammar knows (C16 reports it)
+                bad.append(repr(v)[:40])
+                continue
             numr, sub = v
             if L.is_bitfield_type(numr):
                 bad += [t for t in sub.values() if not (isinstance(t, str) and len(t) == 4 and t[1:].isdigit())]
